@@ -35,7 +35,7 @@ def main():
                        'index receives the same entry set under a FREE arrival order (log contract: GetEntries() = arrival order, Values() = the '
                        'deterministic ipfs-log order). Checked: equal observations on both replicas, latest-event-per-subject wins against a '
                        'reference fold, idempotence of re-indexing.',
-           bounds={'history_length': list(steps), 'families': 'contact lifecycle / request switch+seed / group join-leave', 'alias': 'contact group: announce / send alias key on both sides, 2 (3, 4) operations in a free interleaving; one-pass, two-batch and re-indexed replicas', 'devices': 'multi-member group: 3 devices (2 of one member) announcing + chain key sent to 2 members, 2..3 (5) operations in free order', 'arrival_orders': 'all permutations',
+           bounds={'history_length': list(steps), 'families': 'contact lifecycle / request switch+seed / group join-leave', 'alias': 'contact group: announce / send alias key on both sides, 2 (3) operations in a free interleaving; one-pass, two-batch and re-indexed replicas', 'devices': 'multi-member group: 3 devices (2 of one member) announcing + chain key sent to 2 members, 2..3 operations in free order', 'arrival_orders': 'all permutations',
                    'outside': 'go-ipfs-log / go-orbit-db replication, heads exchange and reopen themselves (they appear only through the two accessors of the log contract); causally unordered concurrent writes other than through partial views'},
            assumptions=['log contract: Values() is a function of the entry set extending causal order; GetEntries() is arrival order (confirmed on go-ipfs-log: Join inserts a batch in BFS-from-heads order)'],
            trusted=['go/ssa lowering', 'wesym interpreter + contracts', 'z3 5.1.0 (+cross-check)'])
